@@ -461,6 +461,12 @@ impl SimWorker {
         ))
     }
 
+    /// The worker lost its server: the REAL `finish_tasks_on_server_lost` (policy `on_server_lost` of the configuration).
+    /// The future ends when the worker has nothing left to wait for; `shutdown` comes after it, as in `run_worker`.
+    pub fn server_lost(&self) -> impl std::future::Future<Output = ()> + 'static {
+        crate::internal::worker::rpc::verif_finish_tasks_on_server_lost(self.state_ref.clone())
+    }
+
     /// What `cancel_running_tasks_on_worker_end` does when the worker process ends.
     pub fn shutdown(&mut self) {
         let mut state = self.state_ref.get_mut();
